@@ -131,3 +131,120 @@ CLONE = Contract(
 
 CONTRACTS = [MGR_CTOR, CLONE]
 VARIANTS = [REFRESH_REBUILD, MGR_INIT]
+
+
+# ----------------------------------------------------------------------------- cleanup: the identity on the abstract index state
+import ast as _ast                                   # noqa: E402
+import copy as _copy                                 # noqa: E402
+from pyvc.engine import Unsupported, Outcome, Ctx    # noqa: E402
+
+
+class CleanupEngine(TasksEngine):
+    """What Manager.cleanup uses beyond the tasks engine:
+      for dct in self.a, self.b, ...: BODY   -> BODY once per listed field with `dct` replaced by that field (the loop variable is only a
+                                               reference to the field's object; it must not be re-bound in BODY)
+      list(d.items()) of a defaultdict(RefCount) -> an arbitrary duplicate-free enumeration of SOME keys of d (which keys have an entry is not
+                                               part of the abstract state), each with its multiset as it is when the list is made; the
+                                               value variable may only be used as len(<var>) (checked syntactically)
+      len(multiset) == 0                      -> every count is 0
+      del d[k]                                -> the entry becomes the empty multiset"""
+
+    def exec_for(self, s, st, cx):
+        it = s.iter
+        if isinstance(it, _ast.Tuple) and isinstance(s.target, _ast.Name) and it.elts and all(
+                isinstance(x, _ast.Attribute) and isinstance(x.value, _ast.Name) and x.value.id == "self" for x in it.elts):
+            name = s.target.id
+            if any(isinstance(n, _ast.Name) and n.id == name and isinstance(n.ctx, (_ast.Store, _ast.Del)) for b in s.body for n in _ast.walk(b)):
+                raise Unsupported("loop variable over fields is re-bound")
+            inner = [n for b in s.body for n in _ast.walk(b) if isinstance(n, (_ast.For, _ast.While))]
+            live, done = [st], []
+            for fld_node in it.elts:
+                class Sub(_ast.NodeTransformer):
+                    def visit_Name(self_, n):
+                        if n.id == name:
+                            return _ast.copy_location(_ast.Attribute(value=_ast.Name(id="self", ctx=_ast.Load()), attr=fld_node.attr, ctx=n.ctx), n)
+                        return n
+                body = [_ast.fix_missing_locations(Sub().visit(_copy.deepcopy(b))) for b in s.body]
+                copies = [n for b in body for n in _ast.walk(b) if isinstance(n, (_ast.For, _ast.While))]
+                for orig, cp_ in zip(inner, copies):
+                    self.loop_ord[id(cp_)] = self.loop_ord[id(orig)]
+                    self.__dict__.setdefault("_orig_anchor", {})[id(cp_)] = _ast.unparse(orig.iter if isinstance(orig, _ast.For) else orig.test)
+                nxt = []
+                for cur in live:
+                    for st2, out in self.exec_block(body, cur):
+                        (nxt if out.kind == "normal" else done).append((st2, out) if out.kind != "normal" else st2)
+                live = nxt
+            return [(s_, Outcome("normal")) for s_ in live] + done
+        return super().exec_for(s, st, cx)
+
+    def _loopspec(self, node, anchor_src):
+        # (a loop inside an unrolled body is matched against the anchor of the loop it was copied from)
+        return super()._loopspec(node, getattr(self, "_orig_anchor", {}).get(id(node), anchor_src))
+
+    def builtin_list(self, e, cx):
+        v = self.eval(e.args[0], cx) if e.args else None
+        if getattr(v, "ddict_items", None) is not None:
+            return v
+        return super().builtin_list(e, cx)
+
+    def call_method(self, recv, name, e, cx, recv_node):
+        if isinstance(recv, PyDDict) and name == "items" and not e.args:
+            ke = enum_of_pred(lambda x_: z3.BoolVal(True), "ddkeys")       # duplicate-free; WHICH keys: arbitrary (axioms say only: distinct)
+            n = FreshConst(IntS, "dd_n")
+            en = PyEnum(n, ke.at_, TV, idx=ke.idx_, axioms=[n >= 0, z3.ForAll([x], z3.Implies(z3.And(0 <= ke.idx_(x), ke.idx_(x) < n), ke.at_(ke.idx_(x)) == x))],
+                        dupfree=True)
+            en.ddict_items = recv
+            return en
+        return super().call_method(recv, name, e, cx, recv_node)
+
+    def loop_elem(self, it, k, s):
+        dd = getattr(it, "ddict_items", None)
+        if dd is not None:
+            if not (isinstance(s.target, _ast.Tuple) and len(s.target.elts) == 2 and isinstance(s.target.elts[1], _ast.Name)):
+                raise Unsupported("items() loop target")
+            vname = s.target.elts[1].id
+            for b in s.body:
+                for n in _ast.walk(b):
+                    if isinstance(n, _ast.Name) and n.id == vname:
+                        ok = any(isinstance(c, _ast.Call) and isinstance(c.func, _ast.Name) and c.func.id == "len" and c.args and c.args[0] is n
+                                 for c in _ast.walk(b))
+                        if not ok:
+                            raise Unsupported("the multiset of an items() pair is used other than as len(...)")
+            key = it.at(k)
+            return PyTuple([PyObj(key), PyCount(z3.Select(dd.arr, key))])
+        return super().loop_elem(it, k, s)
+
+    def builtin_len(self, e, cx):
+        v = self.eval(e.args[0], cx)
+        if isinstance(v, PyCount):
+            n = FreshConst(IntS, "len_rc")
+            cx.assume(z3.And(n >= 0, (n == 0) == v.py_len_is_zero()))
+            return PyInt(n)
+        return super().builtin_len(e, cx)
+
+
+def _idx_pointwise(a, b):
+    d_, x_ = z3.Consts("d!cl x!cl", V)
+    return z3.And(*[z3.ForAll([d_, x_], getattr(a, f).cnt(d_, x_) == getattr(b, f).cnt(d_, x_), patterns=[getattr(a, f).cnt(d_, x_)])
+                    for f in ("rdeps", "rtasks", "deptasks", "tartasks")])
+
+
+def _nonneg(m):
+    d_, x_ = z3.Consts("d!cn x!cn", V)
+    return z3.And(*[z3.ForAll([d_, x_], getattr(m, f).cnt(d_, x_) >= 0, patterns=[getattr(m, f).cnt(d_, x_)])
+                    for f in ("rdeps", "rtasks", "deptasks", "tartasks")])
+
+
+CLEANUP_PROVED = Contract(
+    module=M, qualname="Manager.cleanup", params=dict(self=TMgr),
+    requires=[("counts-nonneg", lambda s: _nonneg(s.self))],
+    ensures=[("every count of every index is what it was", lambda o, n, r: _idx_pointwise(n.self, o.self)),
+             ("the four index maps are the same maps (extensionally)", lambda o, n, r: same_indices(n.self, o.self))],
+    modifies=("self.rdeps", "self.rtasks", "self.deptasks", "self.tartasks"),
+    loops={1: LoopSpec(anchor="list(dct.items())", invariants=[
+        ("counts-kept", lambda L: _idx_pointwise(L.cur.self, L.old.self)), ("index", lambda L: z3.And(0 <= L.k, L.k <= L.n))])},
+    min_obligations=8,
+    extra=dict(engine=CleanupEngine, variant="abstract-identity"),
+    note="removing an entry whose multiset is empty changes no count: cleanup() is the identity on the abstract index state (absent == empty); "
+         "this is what refresh(), clone() and verify() assume about it")
+VARIANTS += [CLEANUP_PROVED]
